@@ -87,7 +87,7 @@ def gen_case(rng, arm, tier, k=0):
             # a matrix with a few isolated rows far away from everything else
             for i in range(n):
                 if rng.random() < 0.4:
-                    Xm[i] = [abs(v) * 40.0 + 90.0 for v in Xm[i]]
+                    Xm[i] = [abs(v) * 40.0 + 90.0 if abs(v) < 1e100 else v for v in Xm[i]]
         mats.append({"style": style, "X": Xm, "Y": Ym, "layout": rng.choice(("c", "c", "c", "f", "strided", "cols"))})
     vecs = []
     for _ in range(rng.randint(2, 4)):
@@ -101,7 +101,7 @@ def gen_case(rng, arm, tier, k=0):
         for _ in range(2)
     ]
     for m_ in mats:
-        m_["pre_metric"] = rng.choice(("euclidean", "manhattan", "squared_euclidean", "chebyshev", "log_squared_euclidean"))
+        m_["pre_metric"] = rng.choice(("euclidean", "manhattan", "squared_euclidean", "chebyshev", "log_squared_euclidean", "gaussian", "gaussian", "free"))
 
     def ref():
         r = rng.random()
@@ -211,13 +211,20 @@ class World:
         # caller-owned distance matrices (one per feature matrix), handed to models through the
         # public pre_distances setter
         self.pres = []
-        for m, X in zip(case["mats"], self.mats):
-            fn = B.distance.DISTANCES[m.get("pre_metric", "euclidean")]
+        for mi, (m, X) in enumerate(zip(case["mats"], self.mats)):
             n = len(X)
             P = np.zeros((n, n))
-            for i in range(n):
-                for j in range(n):
-                    P[i, j] = fn(X[i].copy(), X[j].copy())
+            if m.get("pre_metric") == "free":
+                # the caller's own dissimilarities (not a function of the features, non-zero diagonal)
+                for i in range(n):
+                    for j in range(n):
+                        P[i, j] = float((7 * i + 3 * j + mi) % 5 + 1) + (0.5 if i == j else 0.0)
+                P = (P + P.T) / 2
+            else:
+                fn = B.distance.DISTANCES[m.get("pre_metric", "euclidean")]
+                for i in range(n):
+                    for j in range(n):
+                        P[i, j] = fn(X[i].copy(), X[j].copy())
             self.pres.append(P)
         self.slot_specs = case.get("slots", [])
         self.new_models()
@@ -455,6 +462,7 @@ def run_case(case):
     try:
         if not case["mats"] or not case["vecs"]:
             raise OutOfDomain()
+        base_err = np.geterr()
         live = World(case)
         shadow = World(case)  # what the caller itself wrote; never handed to the library
         pristine = [(name, abits(b)) for name, b in shadow.buffers()]
@@ -492,6 +500,18 @@ def run_case(case):
                 if ft is not None:
                     prep = ["mfit", op[1], ft[0], ft[1], ft[2]]
             ok, res, exc = attempt(op, live, scratch, "live")
+            # ---- I3: process-global numeric state (NumPy's error handling) is part of "history"
+            if np.geterr() != base_err:
+                now_err = np.geterr()
+                np.seterr(**base_err)
+                raise Stop(
+                    violation(
+                        "global-numpy-error-state-changed",
+                        "op #%d %s left numpy's floating-point error handling changed from %s to %s: every later call in the process now behaves differently" % (k, op, base_err, now_err),
+                        op=lab[0],
+                        metric_class=mclass,
+                    )
+                )
             # ---- I1: caller buffers untouched
             for (name, want), (_, buf) in zip(pristine, live.buffers()):
                 if abits(buf) != want:
@@ -588,6 +608,7 @@ def run_case(case):
     except OutOfDomain:
         out.ood = 1
     finally:
+        np.seterr(all="ignore")
         shutil.rmtree(scratch, ignore_errors=True)
     return out
 
@@ -626,7 +647,7 @@ def shrink(case):
             yield c
     # round values
     for i, m in enumerate(case["mats"]):
-        simple = [[float(round(v)) if abs(v) >= 0.5 else v for v in row] for row in m["X"]]
+        simple = [[float(round(v)) if 0.5 <= abs(v) < 1e15 else v for v in row] for row in m["X"]]
         if simple != m["X"]:
             c = dict(case)
             mm = dict(m)
